@@ -298,10 +298,15 @@ pub struct TypedGen<'a> {
     pub budget: i32,
     pub ev: i32,
     pub maxdepth: u32,
+    /// bias towards if/else constructs whose arms end in an explicit function exit (C17, C16)
+    pub exit_bias: bool,
 }
 impl<'a> TypedGen<'a> {
     fn var(&mut self) -> u32 { self.r.below(6) as u32 } // params 0,1 + locals 2..5
     fn fresh(&mut self) -> u32 { let l = self.next_local; self.next_local += 1; l }
+    fn explicit_exit(&mut self) {
+        if self.r.chance(1, 5) { self.out.push(Op::Unreachable); } else { if self.nres == 1 { self.out.push(Op::Const(66)); } self.out.push(Op::Return); }
+    }
     fn event(&mut self) { self.ev += 1; self.out.push(Op::Const(self.ev)); self.out.push(Op::Other(T_LOG)); }
     fn cond(&mut self) {
         let a = self.var();
@@ -361,8 +366,16 @@ impl<'a> TypedGen<'a> {
                     self.cond();
                     self.out.push(Op::If(Bt::Empty));
                     labels.insert(0, (false, 0));
-                    self.seq(labels, depth + 1);
-                    if self.r.chance(1, 2) { self.out.push(Op::Else); self.seq(labels, depth + 1); }
+                    // with exit_bias: arms that end in an explicit exit of the function (return / unreachable), so that an
+                    // exit in the else-arm after a then-arm that already left the function is sampled often
+                    let exits = self.exit_bias && self.r.chance(1, 3);
+                    let dead = self.seq(labels, depth + 1);
+                    if exits && !dead { self.explicit_exit(); }
+                    if exits || self.r.chance(1, 2) {
+                        self.out.push(Op::Else);
+                        let dead = self.seq(labels, depth + 1);
+                        if exits && !dead && self.r.chance(2, 3) { self.explicit_exit(); }
+                    }
                     labels.remove(0);
                     self.out.push(Op::End);
                 }
